@@ -110,8 +110,27 @@ func consumerFields(c *core.Ctx) map[string]bool {
 		return out
 	}
 	st := lineT.Underlying().(*types.Struct)
+	// the consumers are what topranking runs, less what the input readers run (and their helpers); the list writer and
+	// its helpers are neither. Where the entry point cannot be resolved, every non-producer function counts.
+	var consumers map[*ssa.Function]bool
+	if entry := c.SSAFunc("pkg/updown", "TopRanking"); entry != nil {
+		consumers = map[*ssa.Function]bool{}
+		transitiveCallees(entry, consumers)
+		prod := map[*ssa.Function]bool{}
+		for g := range consumers {
+			if producers[g.Name()] && g.Parent() == nil {
+				transitiveCallees(g, prod)
+			}
+		}
+		for g := range prod {
+			delete(consumers, g)
+		}
+	}
 	for _, f := range facts(c).funcs {
 		if f.Pkg == nil || !strings.HasSuffix(f.Pkg.Pkg.Path(), "pkg/updown") || producers[topFunc(f).Name()] {
+			continue
+		}
+		if consumers != nil && !consumers[f] && !consumers[topFunc(f)] {
 			continue
 		}
 		for _, b := range f.Blocks {
